@@ -15,7 +15,8 @@
 From Coq Require Import ZArith List Bool.
 From PTK Require Import Lib.Sx Lib.Py Lib.C05_Filter Gen.C05_Bindings Model.Document
   Model.C05_Dispatch Model.C05_Editor Proofs.C05_EditorFacts Proofs.C05_EscapeFacts Proofs.C05_Main
-  Proofs.C05_MultiCursor Proofs.C05_DispatchFacts Proofs.C05_DispatchCheck.
+  Proofs.C05_MultiCursor Proofs.C05_DispatchFacts Proofs.C05_DispatchCheck Proofs.C05_DispatchLoop
+  Proofs.C05_ArgFacts Model.C05_BlockInsert Proofs.C05_BlockInsertFacts.
 Import ListNotations.
 Open Scope Z_scope.
 
@@ -264,6 +265,118 @@ Print Assumptions C05_pending_key_is_first_key.
 Theorem C05_no_wildcard_first_key : mem_Z K_Any first_keys = false.
 Proof. exact no_wildcard_first_key. Qed.
 Print Assumptions C05_no_wildcard_first_key.
+
+(* ---------------------------------------------------------------------- *)
+(* Round 6: Escape behind ANY content of the key buffer. *)
+
+(* The processor waits only while a strictly longer row exists (any table) ... *)
+Theorem C05_wait_needs_longer_row : forall tbl v ks flush,
+  match_step tbl v ks flush = Wait -> exists b, In b tbl /\ len ks < len (bkeys b).
+Proof. exact wait_longer_row. Qed.
+Print Assumptions C05_wait_needs_longer_row.
+
+(* ... and the longest row of the regenerated table has three keys: never more
+   than two keys are pending, in any state. *)
+Theorem C05_pending_keys_at_most_two : forall v ks flush,
+  match_step bindings v ks flush = Wait -> len ks <= 2.
+Proof. exact wait_at_most_two. Qed.
+Print Assumptions C05_pending_keys_at_most_two.
+
+(* Keys the table does not mention are interchangeable: dispatch is the same for
+   two key buffers that differ only in such keys (closes the "fresh key" gap of
+   C05_escape_after_two_pending_keys). *)
+Theorem C05_unlisted_keys_interchangeable : forall v ks ks' flush,
+  Forall2 keq ks ks' -> match_step bindings v ks flush = match_step bindings v ks' flush.
+Proof. exact match_step_keq. Qed.
+Print Assumptions C05_unlisted_keys_interchangeable.
+
+(* One evaluation on ANY key buffer that ends in Escape (Vi mode, focus, no
+   quoted insert, every valuation): never waits; consumes the whole buffer only
+   with _back_to_navigation (accept_search too for [Escape] alone); otherwise
+   consumes or drops a proper prefix, so Escape stays last in the buffer. *)
+Theorem C05_escape_step_any_buffer : forall ks v flush, vi_ok v ->
+  esc_progress (len (ks ++ [K_Escape])) (match_step bindings v (ks ++ [K_Escape]) flush).
+Proof. exact escape_step_any. Qed.
+Print Assumptions C05_escape_step_any_buffer.
+
+(* The retry loop of KeyProcessor._process (process_loop), by induction on the
+   key buffer: whatever keys [ks] are in the buffer when Escape arrives and
+   however the handlers called on the way change the application state (the
+   valuation [vs i] of the filter atoms at the i-th evaluation is arbitrary
+   within Vi mode / focus / no quoted insert; application not finished), the
+   loop ends with an EMPTY key buffer, its last call has a key sequence ending
+   in Escape, and the model of the called handler leaves Vi in navigation mode
+   with no operator, operator argument or digraph pending from any state. *)
+Theorem C05_escape_any_pending_keys : forall vs dn ks n retry flush,
+  (forall i, vi_ok (vs i)) -> (forall i, dn i = false) ->
+  exists calls idx seq th h,
+    process_loop (length ks + 2) bindings vs dn n retry (ks ++ [K_Escape]) flush = (calls ++ [(idx, seq)], LEmpty) /\
+    (exists pre, seq = pre ++ [K_Escape]) /\
+    handler_at idx = Some th /\ model_of_table_handler th = Some h /\
+    forall s arg data, exists s', call_handler h s arg data = EOk s' /\ nav_clean s'.
+Proof. exact escape_any_pending. Qed.
+Print Assumptions C05_escape_any_pending_keys.
+
+(* ---------------------------------------------------------------------- *)
+(* Round 6: the repeat count as typed.  KeyPressEvent.arg since fix 7b1fd9f
+   (finding C05-F14 repaired): total for every string the digit bindings can
+   build (result below a million), and no exception leaves _call_handler for a
+   modelled handler whatever was typed as the count. *)
+Theorem C05_event_arg_total : forall a,
+  (forall s, a = Some s -> arg_string s = true) ->
+  exists n, event_arg a = Some n /\ n < 1000000.
+Proof. exact event_arg_total. Qed.
+Print Assumptions C05_event_arg_total.
+
+Theorem C05_step_total_arg_string_partial : forall h s a data,
+  EInv s -> MInv s -> (forall x, a = Some x -> arg_string x = true) ->
+  exists s', call_handler_str event_arg h s a data = EOk s' /\ EInv s'.
+Proof. exact call_handler_str_total. Qed.
+Print Assumptions C05_step_total_arg_string_partial.
+
+Theorem C05_step_inv_any_arg_string : forall ea h s a data,
+  EInv s -> EInv (eres_st (call_handler_str ea h s a data)).
+Proof. exact call_handler_str_inv. Qed.
+Print Assumptions C05_step_inv_any_arg_string.
+
+(* The record of the code before 7b1fd9f (event_arg_pinned: int() of the whole
+   accumulated string): ValueError beyond 4300 digits, out of the handler and
+   out of _call_handler; up to 4300 characters the conversion succeeded. *)
+Theorem C05_event_arg_pinned_refuted :
+  arg_string long_arg = true /\ event_arg_pinned (Some long_arg) = None.
+Proof. exact event_arg_pinned_refuted. Qed.
+Print Assumptions C05_event_arg_pinned_refuted.
+
+Theorem C05_step_total_long_arg_pinned_refuted :
+  exists h s data, EInv s /\ MInv s /\ arg_string long_arg = true /\
+    call_handler_str event_arg_pinned h s (Some long_arg) data = EErr E_VALUE s.
+Proof. exact step_long_arg_pinned_refuted. Qed.
+Print Assumptions C05_step_total_long_arg_pinned_refuted.
+
+Theorem C05_event_arg_pinned_below_limit : forall s,
+  arg_string s = true -> len s <= MAX_STR_DIGITS -> exists n, event_arg_pinned (Some s) = Some n.
+Proof. exact event_arg_pinned_below_limit. Qed.
+Print Assumptions C05_event_arg_pinned_below_limit.
+
+(* ---------------------------------------------------------------------- *)
+(* Round 6: entering insert-multiple mode.  vi.py insert_in_block_selection (`I`
+   or `A` on a BLOCK selection; Document.selection_ranges is C08's model), run
+   through _call_handler from any state with cursor and anchor inside the text:
+   no exception, the multiple cursors are sorted and inside the text, the mode
+   is INSERT_MULTIPLE - so C05_multicursor_inv applies from there on; and with
+   any sequence of the five editing keys after it they stay sorted and inside. *)
+Theorem C05_enter_insert_multiple : forall after s o,
+  EInv s -> esel s = Some (o, 2) ->
+  exists s', call_block_insert after s = EOk s' /\ MWF s' /\ EInv s' /\ vmode s' = M_INSERT_MULTIPLE.
+Proof. exact call_block_insert_wf. Qed.
+Print Assumptions C05_enter_insert_multiple.
+
+Theorem C05_enter_then_edit_multicursor : forall after s o ks,
+  EInv s -> esel s = Some (o, 2) ->
+  (forall h a d, In (h, a, d) ks -> multi_handler h /\ (h = HViInsertMulti -> 1 <= len d)) ->
+  MWF (fold_left mstep ks (eres_st (call_block_insert after s))).
+Proof. exact enter_then_edit_wf. Qed.
+Print Assumptions C05_enter_then_edit_multicursor.
 
 (* L4 - accept returns exactly the buffer text *)
 Theorem C05_accept_returns_text : forall s, accept_result s = et s.
